@@ -13,10 +13,10 @@ class Prop:
                "spec(Pools.Spec.holdsb: outstanding == idle baseline + staged, 0 after Close, on the observed counts)",
                "no-stall(sustained traffic through every drop branch with pools of 2*batch+8+receive buffers)"]
     rule = ("scenario = plan of harness actions on a fresh device with bounded pools (4096) and three remote parties, batch "
-            "configurations (tun,bind,receive functions) in {(1,1,2),(4,2,1),(2,8,2),(3,3,1)}: 14 directed plans per configuration "
+            "configurations (tun,bind,receive functions) in {(1,1,2),(4,2,1),(2,8,2),(3,3,1)}: 19 directed plans per configuration "
             "(outbound branches, inbound transport branches, handshake branches, key rotation, staged overflow > 128 containers, "
             "overflow then down/up, counter limit with out-of-order re-staging, down/up cycles, persistent keepalive, removal, "
-            "identity change, close with packets staged, close while down, rate-limited handshakes under load with a consumed cookie, handshake-queue overflow with all handshake workers parked in Bind.Send, TUN reads that return packets together with ErrTooManySegments followed by close / by a fatal read, containers left in stopped peers' autodraining queues flushed by Start / collected after removal, removeall, close, fatal read, removal while the sequential receiver is held in tun.Write and a datagram arrives, peers configured while the interface is down, Stop placed between the entry test and the hand-off of SendStagedPackets) + random plans from one PRNG; counts read after every "
+            "identity change, close with packets staged, close while down, rate-limited handshakes under load with a consumed cookie, handshake-queue overflow with all handshake workers parked in Bind.Send, TUN reads that return packets together with ErrTooManySegments followed by close / by a fatal read, containers left in stopped peers' autodraining queues flushed by Start / collected after removal, removeall, close, fatal read, removal while the sequential receiver is held in tun.Write and a datagram arrives, peers configured while the interface is down, Stop placed between the entry test and the hand-off of SendStagedPackets, SendKeepalive / SendStagedPackets calls that arrive after Stop has returned (after Down, after removal, after Close; peer not restarted) followed by removal / Close, straggler containers still locked by a crypto worker when the peer is restarted or its queues are finalised) + random plans from one PRNG; counts read after every "
             "step, Close followed by two runtime.GC(); 29 stall scenarios with very small pools + 4 rounds of two goroutines waiting on an exhausted message-buffer pool while a two-element batch is released + 4 rounds with two waiters and exactly ONE buffer returned; non-trivial = the plan reaches "
             "at least 6 different branch kinds and at least one step with packets staged; distinct by content hash")
     assumptions = ["pools are bounded through the package variable device.VerifPoolMax (build tag verif) so that WaitPool.count is maintained",
@@ -44,8 +44,21 @@ class Prop:
                 res.append({"case": base + i, "kind": 2, "pos": 1, "stuck": c.get("stuck") or "step did not settle"})
         return res
 
+    HOOKS = ["verif_c20_late.go"]     # add-only verif-tag hook files of /repo/device that are not committed yet
+
+    def _build(self):
+        # a scratch worktree (VERIF_REPO, bin/seedtest.sh) is made from /repo's HEAD: hook files that are not committed yet
+        # are missing there.  They are add-only and tagged, so they are copied into the SCRATCH tree (never into /repo).
+        if vlib.ALT:
+            import shutil
+            for h in self.HOOKS:
+                src, dst = os.path.join("/repo/device", h), os.path.join(vlib.REPO, "device", h)
+                if os.path.exists(src) and not os.path.exists(dst):
+                    shutil.copyfile(src, dst)
+        return vlib.build_go("c20")
+
     def _run_go(self, args):
-        exe = vlib.build_go("c20")
+        exe = self._build()
         rc, o = vlib.sh([exe] + args, cwd=vlib.ROOT, timeout=3000)
         if rc != 0:
             raise CheckError("K.C20.driver", o)
@@ -89,7 +102,7 @@ class Prop:
                  ["handshake_" + x for x in ("bad_mac1", "initiation_accepted", "initiation_refused", "response_accepted", "response_refused", "cookie_reply", "under_load_cookie_sent")] +
                  ["peer_removals", "down", "up", "close", "steps_with_full_staged_queue", "steps_with_staged_packets", "identity_changes", "steps_with_counter_limit_restaging",
                   "handshake_under_load_valid_cookie_rate_limiter", "handshake_queue_overflow_labelled",
-                  "tun_injections_with_ErrTooManySegments", "fatal_tun_reads", "straggler_injections"])
+                  "tun_injections_with_ErrTooManySegments", "fatal_tun_reads", "straggler_injections", "send_calls_after_stop_returned"])
         tot = [0] * len(names)
         for o in outputs.values():
             v = vlib.parse_n_list(vlib.coq_value(o, "st"))
@@ -101,7 +114,7 @@ class Prop:
         os.makedirs(d, exist_ok=True)
         inp = os.path.join(d, "in.json")
         json.dump([{"plan": c["plan"], "cfg": c.get("cfg", [1, 1, 2]), "gen": c.get("gen", "replay")} for c in cases], open(inp, "w"))
-        exe = vlib.build_go("c20")
+        exe = self._build()
         rc, o = vlib.sh([exe, "-replay", inp, "-out", d], cwd=vlib.ROOT, timeout=1800)
         if rc != 0:
             raise CheckError("K.C20.driver", o)
